@@ -14,7 +14,8 @@ T3 = ["hand transcription of read.rs, writer.rs, builder.rs, walk.rs, join_pool.
 PROPS["C08"] = {
     "deps": ["Proofs/WalkInv.vo", "Proofs/ReaderConf.vo", "Proofs/BuilderMore.vo", "Proofs/DfsOrderClosed.vo"],
     "props": "Props/C08.v",
-    "suites": [("reader", 800, 20000), ("walk", 600, 12000), ("hist", 300, 4000)],
+    "suites": [("reader", 800, 20000), ("walk", 600, 12000), ("hist", 300, 4000), ("pool", 300, 6000)],
+    "owner": lambda name: name.startswith("C08.") or name in ("C13.pool_smallest_free", "C13.walk_joins_smallest_free"),
     "assumptions": ["followers are passive: read/walk never inspect a follower's state, so the event list is a function of the input alone (checked by feeding four followers the same input)"],
 }
 
@@ -55,7 +56,7 @@ PROPS["C09"] = {
     "props": "Props/C09.v",
     "probes": [{"file": "Probes/Token.v", "filter": lambda name: name.startswith("C07.reads_") or name.startswith("C07.display_")}],
     "suites": [("hist", 800, 20000), ("reader", 600, 12000)],
-    "extra": [extras.big_families],
+    "extra": [extras.large_molecules],
     "assumptions": ["event values are in range (isotope/map below 1000, ring number below 100): guaranteed by the feature types' constructors (C18)"],
 }
 
@@ -94,7 +95,7 @@ PROPS["C01"] = {
     "deps": ["Proofs/C01.vo", "Proofs/C09_Final.vo", "Proofs/C01_Text.vo"],
     "props": "Props/C01.v",
     "suites": [("walk", 1000, 30000), ("reader", 600, 12000), ("hist", 400, 8000), ("pool", 300, 6000)],
-    "extra": [extras.big_families],
+    "extra": [extras.large_molecules],
     "owner": lambda name: name.startswith("C01.") or name in ("C12.rebuilt_graph_is_arrival_first", "C02.built_graph_is_denotation", "C09.history_inverse", "C13.walk_joins_smallest_free", "C13.pool_smallest_free"),
     "assumptions": ["kinds outside C06's known class, at most 99 closures open, isotope/map below 1000 (C18)"],
 }
@@ -125,7 +126,7 @@ PROPS["C05"] = {
 }
 
 PROPS["C14"] = {
-    "deps": ["Proofs/C09_Final.vo"],
+    "deps": ["Proofs/C09_Final.vo", "Proofs/WalkEquiv.vo"],
     "props": "Props/C14.v",
     "suites": [("walk", 1000, 30000), ("hist", 400, 8000)],
     "owner": lambda name: name.startswith("C14.") or name == "C09.history_inverse",
@@ -134,7 +135,7 @@ PROPS["C14"] = {
 }
 
 PROPS["C15"] = {
-    "deps": ["Proofs/TraceCursors.vo"],
+    "deps": ["Proofs/TraceCursors.vo", "Proofs/TraceRings.vo"],
     "props": "Props/C15.v",
     "suites": [("reader", 1200, 40000)],
     "assumptions": ["the trace model's association list for bonds mirrors HashMap insert-overwrites semantics"],
@@ -157,3 +158,9 @@ PROPS["C02"] = {
     "owner": lambda name: name.startswith("C02.") or name in ("C10.errors_are_classified", "C10.built_graph_is_simple", "C09.history_inverse"),
     "assumptions": ["kinds outside C06's known class (the builder panics on them)"],
 }
+
+# large regular molecules judged by the Rust reference denotation; the `ref` suite ties that reference to the Coq specification
+for _p in ("C01", "C02", "C06", "C08", "C09", "C10", "C11", "C12", "C14", "C15"):
+    _e = PROPS[_p].setdefault("extra", [])
+    if extras.large_molecules not in _e: _e.append(extras.large_molecules)
+    PROPS[_p].setdefault("suites", []).append(("ref", 300, 6000))
